@@ -1288,6 +1288,24 @@ def op_allclose(res, fam, shape, ia, ib, rel, atol, rtol=None):
     vals = [Fr(9, 4), Fr(3, 2), Fr(4)]
     if rel == "zeros":  # exact zeros at the same positions: |0 - 0| <= rtol*0 holds (numpy.allclose is inclusive)
         vals = [Fr(0), Fr(3, 2), Fr(0)]
+    if rel == "lengths-differ":
+        # three values against the first two / the first one / none of them (the same physical values, other unit): never "close"
+        for nb in (2, 1, 0):
+            av = [float(v) for v in vals]
+            bv = [float(v * ma.f / mb.f) for v in vals][:nb]
+            a, b = (np.array(av) * ua, np.array(bv) * ub) if shape == "qarray" else ([x * ua for x in av], [x * ub for x in bv])
+            case = dict(op="allclose", args=[fam, shape, ia, ib, rel, atol])
+            res.states += 1
+            res.transitions += 1
+            res.nontrivial += 1
+            got = _obs(lambda: cu.allclose(a, b))
+            got2 = _obs(lambda: cu.allclose(b, a))
+            ok = all(_isexc(g) or not bool(g) for g in (got, got2))
+            _helper_result(res, "allclose", ok, case, "allclose(%s of 3 values in %s, its first %d values in %s) = %r (other way round: %r): containers of different length are not close" % (shape, da, nb, db, got, got2),
+                           [got if _isexc(got) else bool(got), got2 if _isexc(got2) else bool(got2)], [False, False])
+            if ok:
+                res.outcomes["allclose-lengths-differ-not-close"] += 1
+        return
     if rel == "at-atol":
         # rtol = 0 and a difference of exactly the absolute tolerance (dyadic numbers, one common unit): inclusive, True
         a = (1.0 * ua) if shape == "scalar" else (np.array([1.0, 2.0, 0.0]) * ua if shape == "qarray" else [1.0 * ua, 2.0 * ua, 0.0 * ua])
@@ -1487,6 +1505,9 @@ def _layer_H1(res, helper):
                     for pattern in ("cycle", "ends-equal", "one-odd"):
                         op_long(res, name, kind, ln, pattern)
     elif helper == "allclose":
+        for target in PLAIN_TARGETS:
+            for shape in ("scalar", "list", "tuple", "ndarray-float", "ndarray-int", "ndarray-object"):
+                op_plain(res, target, shape)
         for name, ev, units in fams:
             n = range(len(units))
             for shape in ("scalar", "qarray", "list"):
@@ -1496,6 +1517,8 @@ def _layer_H1(res, helper):
                             op_allclose(res, name, shape, ia, ib, rel, False)
                         if ia == ib:
                             op_allclose(res, name, shape, ia, ib, "at-atol", False)
+                        if shape != "scalar":
+                            op_allclose(res, name, shape, ia, ib, "lengths-differ", False)
                         op_allclose(res, name, shape, ia, ib, "far", True)
                         op_allclose(res, name, shape, ia, ib, "far", False, 1e-4)
                         op_allclose(res, name, shape, ia, ib, "near", False, 1e-12)
@@ -1553,7 +1576,40 @@ def run_chunk(chunk, tier):
     return res
 
 
-OPS = dict(conv=op_conv, triple=op_triple, dim=op_dim, incompat=op_incompat, zero=op_zero, zero_reg=op_zero_reg, zero_dim=op_zero_dim, zero_incompat=op_zero_incompat,
+PLAIN_TARGETS = ["1e-9", "1000*dimensionless", "percent", "metre/kilometre", "dimensionless", "1", "millimolar/molar", "0.125*dimensionless"]
+
+
+def op_plain(res, target, shape):
+    """plain numbers (no unit) converted to a dimensionless target that carries a scale (1e-9, percent, metre/kilometre, ...): the result is
+    the number divided by that scale - the same for a scalar, a list, a tuple, a float array, an integer array and an object array"""
+    cu, np, u = E()["cu"], E()["np"], E()["u"]
+    tgt, scale = {"1e-9": (1e-9, Fr(1, 10 ** 9)), "1000*dimensionless": (1000 * u.dimensionless, Fr(1000)), "percent": (u.percent, Fr(1, 100)),
+                  "metre/kilometre": (u.metre / u.kilometre, Fr(1, 1000)), "dimensionless": (u.dimensionless, Fr(1)), "1": (1, Fr(1)),
+                  "millimolar/molar": (u.millimolar / u.molar, Fr(1, 1000)), "0.125*dimensionless": (0.125 * u.dimensionless, Fr(1, 8))}[target]
+    vals = [1.0, 2.5, 0.0, -4.0]
+    arg = {"scalar": lambda: vals[1], "list": lambda: list(vals), "tuple": lambda: tuple(vals), "ndarray-float": lambda: np.array(vals), "ndarray-int": lambda: np.array([1, 2, 0, -4]),
+           "ndarray-object": lambda: np.array(vals, dtype=object)}[shape]()
+    want = [float(Fr(v) / scale) for v in ([vals[1]] if shape == "scalar" else ([1, 2, 0, -4] if shape == "ndarray-int" else vals))]
+    case = dict(op="plain", args=[target, shape])
+    res.states += 1
+    res.transitions += 1
+    res.nontrivial += 1
+    keep = arg.copy() if hasattr(arg, "copy") and shape != "scalar" else arg
+    got = _obs(lambda: cu.to_unitless(arg, tgt))
+    if not _isexc(got):
+        try:
+            got = [float(x) for x in np.atleast_1d(np.asarray(got, dtype=float))]
+        except Exception as e:
+            got = "EXC %s" % type(e).__name__
+    ok = (not _isexc(got)) and len(got) == len(want) and all(abs(g - w) <= 1e-12 * abs(w) for g, w in zip(got, want))
+    if ok and shape.startswith("ndarray") and not np.array_equal(arg, keep):
+        ok, got = False, "caller's array changed to %r" % (arg.tolist(),)
+    _helper_result(res, "to_unitless", ok, case, "to_unitless(plain %s %r, %s) = %r, the numbers divided by the scale of the target are %r" % (shape, [1, 2, 0, -4] if shape == "ndarray-int" else (vals[1] if shape == "scalar" else vals), target, got, want), got, want)
+    if ok:
+        res.outcomes["plain-numbers-to-scaled-dimensionless-ok"] += 1
+
+
+OPS = dict(plain=op_plain, conv=op_conv, triple=op_triple, dim=op_dim, incompat=op_incompat, zero=op_zero, zero_reg=op_zero_reg, zero_dim=op_zero_dim, zero_incompat=op_zero_incompat,
            reg=op_reg, derived=op_derived, derived_seq=op_derived_seq, hr=op_hr, derived_none=op_derived_none, hr_none=op_hr_none, cont=op_cont,
            backend_ratio=op_backend_ratio, backend_dim=op_backend_dim, chem=op_chem, chem_pair=op_chem_pair,
            spacing=op_spacing, spacing_plain=op_spacing_plain, concat=op_concat, tile=op_tile, uniform=op_uniform, long=op_long, allclose=op_allclose,
